@@ -66,10 +66,15 @@ def glue_unit(n, lb_given, ub_given, kind="Square"):
                 if ub_given:
                     c.assume(x[i] <= ub[i])
             ms = MinimizeStub(c)
+            from .stoch import snapshot
+            x_snap, lb_snap, ub_snap = snapshot(x), (snapshot(lb) if lb is not None else None), (snapshot(ub) if ub is not None else None)
             with stubs.patched((base_loss, "minimize", ms)):
                 out = L.obj.fit(x, lb, ub)
                 out2, res = L.obj.fit(x, lb, ub, full_output=True)
         c.reachable("fit returned")
+        from .stoch import unchanged
+        c.prove(unchanged(x, x_snap, c) and (lb is None or unchanged(lb, lb_snap, c)) and (ub is None or unchanged(ub, ub_snap, c)),
+                "fit does not modify the start point or the bound arrays handed in")
         c.prove(len(ms.calls) == 2, "one optimiser call per fit")
         rec = ms.calls[0]
         c.prove(rec["fun"] == L.obj.cost, "objective handed to the optimiser is cost")
